@@ -362,3 +362,45 @@ SPEC = PropSpec(
     stubs=[],
     technique="CrossHair/z3 bounded symbolic execution, differential against the standard pickle module",
 )
+
+
+# ---------------------------------------------------------------------------------------------
+def h_threads(kind, remote, proto):
+    """Graphs without opt-in objects loaded on two threads at once: each load gives what pickle gives."""
+    import pickle
+    with notrace():
+        snap = pk.snapshot()
+        try:
+            kind_, remote_, proto_ = _c(kind, 3), _c(remote, 2), 2 + _c(proto, 4)
+            ev("threads13", kind_, remote_, proto_)
+            # kind 0: plain classes / 1: a class with plain __getstate__/__setstate__ / 2: opt-in classes dumped with remote=False
+            if kind_ == 0:
+                C = pk.make_class("P", object)
+            elif kind_ == 1:
+                C = pk.make_class("P", object, gs=1, ss=1)
+            else:
+                C = pk.make_class("P", rp.SupportRemoteGetState, gs=2, ss=1, first=True)
+            rem = bool(remote_) and kind_ != 2
+
+            def graph(tag):
+                o = pk.new_instance(C, tag, 5)
+                o.kid = pk.new_instance(C, tag + "k", 6)
+                o.y = pk.Yielder(2)
+                o.tail = [1, (2, "x"), {"k": None}]
+                return o
+            sig = pk.two_thread_loads(lambda: rp.dumps(graph("a"), protocol=proto_, remote=rem), lambda: rp.dumps(graph("b"), protocol=proto_, remote=rem),
+                                      lambda d: rp.loads(d), lambda d: rp.loads(d), lambda x, y: x == y)
+            if sig == "overlap-not-reached":
+                return Outcome(None, False)
+            return Outcome(None if sig is None else "c13.threads." + sig, True)
+        finally:
+            pk.restore(snap)
+
+
+H_THREADS = Harness("threads", "vf.props.c13:h_threads", OrderedDict([("kind", (0, 2)), ("remote", (0, 1)), ("proto", (0, 3))]),
+                    tiers={"quick": {"partition": ["kind"], "timeout": 200, "twin_fixed": {"kind": 0}},
+                           "thorough": {"partition": ["kind"], "timeout": 200, "twin_fixed": {"kind": 0}}},
+                    functions=_FUNCS)
+SPEC.harnesses.append(H_THREADS)
+SPEC.assumptions.append("harness 'threads': two loads of graphs without opt-in objects (or with opt-in classes dumped with remote=False) overlap on two "
+                        "real OS threads scheduled by vf/sim.py; each must equal its own sequential result")
